@@ -54,7 +54,7 @@ bounded = {
           "label": "BOUNDED stand-in, not a proof, never counted as proved",
           "evaluations": seqs,
           "distinct_nontrivial": core.get("distinct_tree_shapes", 0),
-          "rule": "Exhaustive enumeration (no randomness): vendored btree: every sequence of insert/delete operations of length <= %s over keys 0..%s for degrees 2 and 3, plus every insertion order of 0..%s followed by three deletions; wrapper ds/tree.BTree: every sequence of Insert/Delete/Update/UpdateOrInsert of length <= %s over keys 0..%s. After every sequence the tree is compared with a sorted-set model: Len, Get/Has with the most recently stored item, all four scans (inclusive/exclusive, ascending/descending) from every pivot -1..K with two filters and every limit 0..K+1, node-degree bounds (d-1..2d-1 items), equal leaf depth, item count, and clone isolation in both directions. distinct_nontrivial counts the distinct final tree shapes reached by the core harness." % (core.get("L"), (core.get("K") or 1) - 1, (core.get("P") or 1) - 1, wrap.get("L"), (wrap.get("K") or 1) - 1),
+          "rule": "Exhaustive enumeration (no randomness): vendored btree: every sequence of insert/delete operations of length <= %s over keys 0..%s for degrees 2 and 3, plus every insertion order of 0..%s followed by three deletions, and after every such insertion order every single key re-stored on a clone; wrapper ds/tree.BTree: every sequence of Insert/Delete/Update/UpdateOrInsert of length <= %s over keys 0..%s. After every sequence the tree is compared with a sorted-set model: Len, Get/Has with the most recently stored item, all four scans (inclusive/exclusive, ascending/descending) from every pivot -1..K with two filters and every limit 0..K+1, node-degree bounds (d-1..2d-1 items), equal leaf depth, item count, and clone isolation in both directions. distinct_nontrivial counts the distinct final tree shapes reached by the core harness." % (core.get("L"), (core.get("K") or 1) - 1, (core.get("P") or 1) - 1, wrap.get("L"), (wrap.get("K") or 1) - 1),
           "samples": core.get("samples", []),
           "scan_checks": core.get("scan_checks", 0) + wrap.get("scan_checks", 0),
           "exhaustive_within_bound": True,
